@@ -86,7 +86,10 @@ def add_constraints(constraints: list[Constraint]) -> list[str]:
 
 
 def safename(name: str) -> str:
-    return f'"{name}"' if any(char not in safecharacters() for char in name) else name
+    # 'or' separates the literals of a clause, so a feature with that name must be quoted too
+    if name == 'or' or any(char not in safecharacters() for char in name):
+        return f'"{name}"'
+    return name
 
 
 def safecharacters() -> str:
